@@ -336,6 +336,35 @@ func codecExec(c *Ctx, line string) {
 				c.Oracle("DecompressSnapshot(CompressSnapshot(%s)) = %s, %v", t[1], showHex(d), err)
 			}
 		})
+	case t[0] == "HDRBIG" && len(t) == 2:
+		// a large stored snapshot (project MaxSizePerDocument is configurable well above the 10 MiB default):
+		// compressible pattern data, compressed and read back through the real database functions
+		mib, err := strconv.Atoi(t[1])
+		if err != nil || mib < 1 || mib > 256 {
+			out = "bad-arg"
+			break
+		}
+		b := make([]byte, mib<<20)
+		for i := range b {
+			b[i] = byte((i * 7) ^ (i >> 9))
+		}
+		g = guarded(4*codecTimeout, func() {
+			r, err := database.CompressSnapshot(b)
+			if err != nil {
+				out = "err:compress"
+				return
+			}
+			d, err := database.DecompressSnapshot(r)
+			if err != nil {
+				out = "err:decompress:" + strings.ReplaceAll(err.Error(), " ", "_")
+				return
+			}
+			if !bytes.Equal(d, b) {
+				out = fmt.Sprintf("differs len=%d", len(d))
+				return
+			}
+			out = fmt.Sprintf("ok len=%d", len(d))
+		})
 	case t[0] == "HDRDEC" && len(t) == 3:
 		b, ok := parseHex(t[1])
 		if !ok {
